@@ -1,8 +1,8 @@
 SPECIFICATION Spec
 CONSTANTS Kind = "T"
-          T = 6
+          T = 5
           NL = 3
-          NS = 3
+          NS = 2
           Labels = {"a"}
           Windows = {0, 1, 2, 3}
           FS = {1, 2}
